@@ -5,6 +5,7 @@ CONSTANTS
   Chunk = 31457280
   ChunkOverhead = 16
   OpSize = 8
+  WrapOverhead = 0
   UseSize = 32
   RawSizes = {}
   FileSizes = {}
